@@ -52,4 +52,5 @@ props! {
     "C24" => c24,
     "C25" => c25,
     "X03" => x03,
+    "X01" => x01,
 }
